@@ -87,6 +87,7 @@ class Check:
         self.harness_problems: List[str] = []
         self.samples: List[Any] = []
         self._alt_checked: set = set()
+        self._seen_presigs: Dict[str, int] = {}
 
     # ------------------------------------------------------------------ reference phase
     def reference_phase(self, need_sites: bool = True) -> None:
@@ -401,6 +402,10 @@ class Check:
         uid = spec["ops"][pos].get("uid", pos)
         kind = mms[0]["kind"]
         timeout = 120.0 if self.tier == "quick" else 600.0
+        presig = json.dumps([spec["ops"][pos]["op"], kind.split(":")[0], str(mms[0]["observed"])[:80] if kind in ("outcome", "totality", "structure") else ""])
+        if presig in self._seen_presigs:
+            self._seen_presigs[presig] += 1
+            return
         self.ensure_refs([spec])
         confirmed = False
         for _ in range(3):
@@ -454,6 +459,7 @@ class Check:
             if line not in self.known_hits:
                 self.known_hits.append(line)
                 log(line)
+            self._seen_presigs[presig] = 1
             return
         # one violation per signature is enough
         for old in self.violations:
@@ -470,6 +476,7 @@ class Check:
             self.harness_problems.append(f"replay file {path} did not reproduce the violation in a fresh execution")
             return
         viol["replay_path"] = path
+        self._seen_presigs[presig] = 1
         self.violations.append(viol)
         log(f"VIOLATION property={self.prop} replay={path}")
         log(f"  kind={kind} sig={json.dumps(sig)} ops {len(spec['ops'])}->{len(small['ops'])}")
